@@ -104,3 +104,99 @@ Definition counters_exact (m : metrics) (t : mtot) : Prop :=
   m_tail_trunc m = t_tail_trunc t /\
   m_stable_gets m = t_stable_gets t /\
   m_stable_sets m = t_stable_sets t.
+
+(* ------------------------------------------------------------------ *)
+(* segment_rotations: the truth comes from the persisted-metadata history.
+
+   The I/O trace of a run (e_acts, newest first) holds every MetaStore commit
+   with the state it persisted.  A ROTATION is a commit that, compared with the
+   state persisted before it and with the segment files as they are at that
+   moment (both replayed from the trace, not taken from the WAL's memory),
+     - keeps every segment but the last as it was,
+     - turns the last one -- the unsealed tail t -- into a sealed segment
+       (index start recorded, MaxIndex recorded) with the same identity,
+     - seals it AT THE LAST ENTRY ITS FILE HOLDS (nothing is cut off), and
+     - appends ONE new, empty, unsealed tail with the next segment id whose
+       BaseIndex is t's last index + 1.
+   The other committers differ in one of these points: a head truncation and the
+   reset of an empty first segment never make the list longer; a tail
+   truncation that drops whole segments does not make it longer either, and one
+   that cuts inside the tail seals it BELOW the last entry of its file; Open
+   completing an interrupted rotation commits exactly this shape but is not
+   counted by the implementation (segment_rotations is incremented in
+   rotateSegmentLocked only, wal.go) -- which is why the total is per lifetime:
+   it ranges over the actions recorded after the last Open returned. *)
+
+Definition seginfo_eqb (a b : seginfo) : bool :=
+  (si_id a =? si_id b) && (si_base a =? si_base b) && (si_min a =? si_min b) && (si_max a =? si_max b) &&
+  (si_codec a =? si_codec b) && (si_index_start a =? si_index_start b) &&
+  Bool.eqb (si_sealed a) (si_sealed b) && (si_size_limit a =? si_size_limit b).
+
+Fixpoint segs_eqb (a b : list seginfo) : bool :=
+  match a, b with
+  | [], [] => true
+  | x :: a', y :: b' => seginfo_eqb x y && segs_eqb a' b'
+  | _, _ => false
+  end.
+
+(* the last index the file of segment s holds on disk d (0 = it holds no entry) *)
+Definition file_last (d : disk) (s : seginfo) : N :=
+  let n := llen (file_ents (name_of s) d) in
+  if n =? 0 then 0 else si_base s + n - 1.
+
+Definition is_rotation (d : disk) (old new : pstate) : bool :=
+  match rev (ps_segs old), rev (ps_segs new) with
+  | t :: rp, n :: t' :: rp' =>
+      (si_max t' =? file_last d t) &&                       (* sealed at the last entry of the file *)
+      negb (si_sealed t) && si_sealed t' &&
+      (si_id t' =? si_id t) && (si_base t' =? si_base t) && (si_min t' =? si_min t) &&
+      (si_codec t' =? si_codec t) && (si_size_limit t' =? si_size_limit t) &&
+      (0 <? si_index_start t') && (0 <? si_max t') &&
+      negb (si_sealed n) && (si_base n =? si_max t' + 1) && (si_min n =? si_base n) && (si_max n =? 0) &&
+      (si_id n =? ps_next_id old) && (ps_next_id new =? ps_next_id old + 1) &&
+      segs_eqb rp rp'                                       (* earlier segments unchanged *)
+  | _, _ => false
+  end.
+
+(* what one action adds to the count, on the disk it is applied to *)
+Definition act_rotation (d : disk) (a : act) : N :=
+  match a, dk_meta d with
+  | ACommit ps, Some old => if is_rotation d old ps then 1 else 0
+  | _, _ => 0
+  end.
+
+Fixpoint rot_count (d : disk) (acts : list act) : N :=      (* acts oldest first *)
+  match acts with
+  | [] => 0
+  | a :: r => act_rotation d a + rot_count (apply_act d a) r
+  end.
+
+(* rotations among the actions of a trace (newest first, as in e_acts) that come
+   after the first [mark] ones; the disk at the mark is replayed from the trace *)
+Definition trace_rotations (mark : nat) (acts : list act) : N :=
+  let all := rev_append acts [] in
+  rot_count (fold_left apply_act (firstn mark all) empty_disk) (skipn mark all).
+
+(* the calls of the current lifetime: (everything up to and including the last
+   Close;Open, the calls after it) *)
+Fixpoint last_life (os : list sop) : list sop * list sop :=
+  match os with
+  | [] => ([], [])
+  | o :: r =>
+      let '(p, l) := last_life r in
+      match p, o with
+      | [], OReopen => ([OReopen], l)
+      | [], _ => ([], o :: l)
+      | _ :: _, _ => (o :: p, l)
+      end
+  end.
+
+(* The model's run keeps ONE set of counters for the whole history (the other nine
+   totals range over it); the implementation starts a fresh collector at every
+   Open.  So the rotation counter of the current lifetime is the difference to the
+   value at the last Open, and it equals the rotations the trace shows since then. *)
+Definition rotations_show (c : cfg) (s0 : sstate) (os : list sop) : Prop :=
+  let s1 := snd (run_model c s0 (fst (last_life os))) in
+  let s := snd (run_model c s0 os) in
+  m_rotations (e_m (ss_env s)) =
+  m_rotations (e_m (ss_env s1)) + trace_rotations (length (e_acts (ss_env s1))) (e_acts (ss_env s)).
